@@ -4,7 +4,7 @@ NonOverlap domain predicate), then admitted and given inputs derived from their 
 import itertools
 import os
 from .defs import (Item, Variant, Field, VM, EM, ser, tos, aci, dw, msg, det, doc, props, DISABLED, DEFAULT,
-                   TRANSPARENT, hx)
+                   TRANSPARENT, hx, unraw)
 from . import run as R
 
 IDENTS = ["Red", "GreenApple", "HTTPServer", "Utf8String", "X", "Abc_def", "A1b2", "XMLHttpRequest2", "Id", "IOError",
@@ -131,6 +131,9 @@ def string_enum(rng, nvariants=None, *, allow_default=True, allow_disabled=True,
             if distinct_lengths:
                 seen = set()
                 sers = [s for s in sers if not (len(s.encode()) in seen or seen.add(len(s.encode())))]
+            if sers and rng.random() < 0.12 and ident.isascii():
+                # the usual way to exempt one variant from serialize_all: its own identifier, spelled out as a literal (never re-cased)
+                sers[rng.randrange(len(sers))] = unraw(ident)
             ms += [ser(s) for s in sers]
             if rng.random() < 0.4 and pool:
                 ms.append(tos(pool.pop()))
